@@ -133,12 +133,26 @@ def build_row(row):
     return out
 
 
-def build_array(rows, as_fsarray, width):
+def build_array(rows, as_fsarray, width, reuse=None):
+    """reuse: the array object handed to the previous render -- when it is of the same kind it is mutated in
+    place and handed over again (applications keep one list / FSArray and edit it between renders)"""
     from curtsies.formatstring import fmtstr
     from curtsies.formatstringarray import FSArray
     built = [build_row(r) for r in rows]
     if not as_fsarray:
+        if isinstance(reuse, list):
+            reuse[:] = built
+            return reuse
         return built
+    if isinstance(reuse, FSArray) and reuse.width == width:
+        del reuse.rows[len(built):]
+        for i, r in enumerate(built):
+            row = fmtstr(r) if isinstance(r, str) else r
+            if i < len(reuse.rows):
+                reuse[i] = row
+            else:
+                reuse.rows.append(row)
+        return reuse
     a = FSArray(len(built), width)
     for i, r in enumerate(built):
         a[i] = fmtstr(r) if isinstance(r, str) else r
